@@ -164,6 +164,9 @@ def run(ctx) -> Result:
               ok_detail="the pair counter receives the cost matrix just built",
               bad_detail="the pair counter does not receive the cost matrix built from the caller's dataset")
     res.not_decided.append("nothing numeric: the counting rule compares float costs exactly as the property states")
+    if not res.violations:      # the end-to-end pass adds nothing to an established violation (and may not terminate on it)
+        from . import e2e
+        e2e.check(res, ctx.proj, "C13", ctx.thorough)
     return res
 
 
